@@ -39,6 +39,7 @@ type Case struct {
 	CN     string   // x509
 	SANs   []string // sans, sshhost, sshuser
 	E2E    string   `json:",omitempty"` // "" = engine called directly; "authority" | "provisioner" = real CA (e2e.go)
+	Side   string   `json:",omitempty"` // SSH e2e: "" = host and user sections carry the rules; "own" | "other" = only the section of the certificate's (other) type
 }
 
 // ---------- external fields, computed with the same libraries the engine calls ----------
@@ -224,6 +225,9 @@ func (k *Case) render() (string, bool) {
 	head := fmt.Sprintf("kind=%s vcn=%s wild=%s %s %s", k.Kind, c.B(k.VCN), c.B(k.Wild), rulesFields("p", k.P), rulesFields("x", k.X))
 	if k.E2E != "" {
 		head = "cmp=class lvl=" + k.E2E + " " + head
+	}
+	if k.Side != "" {
+		head += " side=" + k.Side
 	}
 	tail := " case=x" + hex.EncodeToString(js)
 	switch k.Kind {
